@@ -140,6 +140,19 @@ def check_sec(items, txt, ctx, rep, pytrs):
                           f"descending range present={desc} but "
                           f"non-sequential warning present={ns} "
                           f"(w_flags {d.w_flags})", dedup=str(desc))
+        # Without a colon, under sec_colon_cautious (second pass).
+        full3 = f"T154N-R97W {txt} NE/4"
+        if not txt.rstrip().endswith(':'):
+            d3 = pytrs.PLSSDesc(full3, config='sec_colon_cautious')
+            got4 = [t.sec for t in d3.tracts]
+            ns3 = any('nonsequential' in f for f in d3.w_flags)
+            if got4 != e or ns3 != desc:
+                ctx.violation(
+                    'cautious-second-pass', case,
+                    f"PLSSDesc({full3!r}, config='sec_colon_cautious') "
+                    f"sections {got4} (expected {e}), non-sequential warning "
+                    f"{ns3} (descending range present: {desc}); w_flags "
+                    f"{d3.w_flags}", dedup=f"{got4 != e}")
         # The same list in the desc-Sec-Twp/Rge layout.
         full2 = f"NE/4 of {txt}, T154N-R97W"
         d2 = pytrs.PLSSDesc(full2)
@@ -163,6 +176,15 @@ def check_lot(items, txt, ctx, rep, pytrs):
     with ctx.guard(case):
         t = pytrs.Tract(txt, parse_qq=True)
         ctx.hit('boundary:Tract.lots')
+        # A Tract created unparsed, looked at, then parsed.
+        u = pytrs.Tract(txt)
+        before = (list(u.lots), list(u.ilots), list(u.lots_qqs))
+        u.parse()
+        if before != ([], [], []) or u.lots != e or u.ilots != exp:
+            ctx.violation('lots-after-late-parse', case,
+                          f"unparsed Tract showed {before}; after parse() "
+                          f"lots {u.lots} ilots {u.ilots}, expected {e} / "
+                          f"{exp}", dedup='late')
         if t.lots != e:
             ctx.violation('lots', case,
                           f"Tract({txt!r}).lots == {t.lots}, expected {e}",
